@@ -123,7 +123,7 @@ class CachingLoaderMixin(ABC, _CachingLoaderProtocol):
         bound to the new globals is returned instead.
         """
         global_data = globals or {}
-        if cached_template.global_data == global_data:
+        if _same_data(cached_template.global_data, global_data):
             return cached_template
         template = copy.copy(cached_template)
         template.global_data = global_data
@@ -197,3 +197,22 @@ class CachingLoaderMixin(ABC, _CachingLoaderProtocol):
             return f"{context.globals[self.namespace_key]}/{name}"
         except KeyError:
             return name
+
+
+def _same_data(a: object, b: object) -> bool:
+    """Return _True_ if _a_ and _b_ are equal and of the same types throughout.
+
+    Equality alone is not enough to share a template between callers. `{"x": 1}`
+    equals `{"x": True}`, but they don't render the same.
+    """
+    if a is b:
+        return True
+    if type(a) is not type(b):
+        return False
+    if isinstance(a, Mapping) and isinstance(b, Mapping):
+        return len(a) == len(b) and all(
+            key in b and _same_data(value, b[key]) for key, value in a.items()
+        )
+    if isinstance(a, (list, tuple)) and isinstance(b, (list, tuple)):
+        return len(a) == len(b) and all(_same_data(x, y) for x, y in zip(a, b))
+    return a == b
